@@ -343,7 +343,14 @@ def check_ee(case, ctx):
         if (k == 0 or k >= nkeep - 1) and math.isnan(r_back):
             ctx.event('endpoint_nan')
             continue
-        if not close(r_back, rad[k], 1e-9, 1e-12):
+        ee_back = float(cog.calc_ee_at_radius(r_back)) \
+            if not math.isnan(r_back) else float('nan')
+        # the two PCHIP interpolants are exact inverses only at the knots;
+        # where the curve is flat the radius is ill-conditioned, so accept
+        # any radius that maps back onto the same encircled energy
+        if not (close(r_back, rad[k], 1e-9, 1e-12)
+                or (close(ee_back, ee, 1e-11, 1e-300)
+                    and close(r_back, rad[k], 1e-5, 1e-9))):
             raise Violation('ee_inverse', f'radius_at_ee(ee_at_radius({rad[k]})) '
                             f'= {r_back}')
     out_lo = float(cog.calc_ee_at_radius(rad[0] - 0.1))
